@@ -415,18 +415,37 @@ func (fs LocalFileSystem) Move(ctx context.Context, src, dst string, options *Mo
 			return false, errFromOS(err)
 		}
 		created = true
-	} else {
-		if options.NoOverwrite {
-			return false, NewHTTPError(http.StatusPreconditionFailed, os.ErrExist)
-		}
-		if err := os.RemoveAll(dstPath); err != nil {
+	} else if options.NoOverwrite {
+		return false, NewHTTPError(http.StatusPreconditionFailed, os.ErrExist)
+	}
+
+	if created {
+		if err := os.Rename(srcPath, dstPath); err != nil {
 			return false, errFromOS(err)
 		}
+		return true, nil
 	}
 
-	if err := os.Rename(srcPath, dstPath); err != nil {
+	// Set the old destination aside under a temporary name next to it and
+	// remove it only once the source has taken its place, so that a move
+	// that fails leaves the destination as it was
+	wc, err := createTemp(filepath.Dir(dstPath))
+	if err != nil {
 		return false, errFromOS(err)
 	}
+	tmpPath := wc.Name()
+	wc.Close()
+	if err := os.Remove(tmpPath); err != nil {
+		return false, errFromOS(err)
+	}
+	if err := os.Rename(dstPath, tmpPath); err != nil {
+		return false, errFromOS(err)
+	}
+	if err := os.Rename(srcPath, dstPath); err != nil {
+		os.Rename(tmpPath, dstPath)
+		return false, errFromOS(err)
+	}
+	os.RemoveAll(tmpPath)
 
-	return created, nil
+	return false, nil
 }
